@@ -3074,8 +3074,11 @@ debug={debug},
             ###################################################################
             # Escape regex to avoid embedded parenthesis problems
             ###################################################################
-            parentspec = escape_linespec(parentspec)
-            childspec = escape_linespec(childspec)
+            if isinstance(parentspec, (list, tuple)):
+                parentspec = [escape_linespec(ii) for ii in parentspec]
+            else:
+                parentspec = escape_linespec(parentspec)
+                childspec = escape_linespec(childspec)
 
         if isinstance(parentspec, BaseCfgLine):
             parentspec = parentspec.text
@@ -3087,8 +3090,11 @@ debug={debug},
                 logger.critical(error)
                 raise ValueError(error)
 
-            elif len(parentspec) == 1:
-                return self.find_objects(parentspec[0])
+            if ignore_ws:
+                parentspec = [build_space_tolerant_regex(ii, encoding=self.encoding) for ii in parentspec]
+
+            if len(parentspec) == 1:
+                return self.find_objects(parentspec[0], reverse=reverse)
 
             _result = set()
             _tmp = self.find_object_branches(
@@ -3106,7 +3112,7 @@ debug={debug},
                 return []
             else:
                 # Sort and return the de-duplicated results
-                return sorted(_result)
+                return sorted(_result, reverse=reverse)
         else:
             error = f"Received unexpected `parentspec` {type(parentspec)}"
             logger.error(error)
@@ -3376,8 +3382,11 @@ debug={debug},
             ###################################################################
             # Escape regex to avoid embedded parenthesis problems
             ###################################################################
-            parentspec = escape_linespec(parentspec)
-            childspec = escape_linespec(childspec)
+            if isinstance(parentspec, (list, tuple)):
+                parentspec = [escape_linespec(ii) for ii in parentspec]
+            else:
+                parentspec = escape_linespec(parentspec)
+                childspec = escape_linespec(childspec)
 
         if isinstance(parentspec, BaseCfgLine):
             parentspec = parentspec.text
@@ -3390,8 +3399,11 @@ debug={debug},
                 logger.critical(error)
                 raise ValueError(error)
 
-            elif len(parentspec) == 1:
-                return self.find_objects(parentspec[0])
+            if ignore_ws:
+                parentspec = [build_space_tolerant_regex(ii, encoding=self.encoding) for ii in parentspec]
+
+            if len(parentspec) == 1:
+                return self.find_objects(parentspec[0], reverse=reverse)
 
             elif len(parentspec) > 1:
                 _result = set()
@@ -3409,7 +3421,7 @@ debug={debug},
                     ######################################################
                     return []
                 # Sort the de-duplicated results
-                return sorted(_result)
+                return sorted(_result, reverse=reverse)
             else:
                 error = f"`parentspec` {type(parentspec)} must have at least one element."
                 logger.error(error)
@@ -3450,7 +3462,7 @@ debug={debug},
                     if re.search(childspec, child.text) is not None:
                         retval.add(child)
 
-        return sorted(retval)
+        return sorted(retval, reverse=reverse)
 
     # This method is on CiscoConfParse()
     @logger.catch(reraise=True)
